@@ -426,6 +426,16 @@ func c17judge(ip *interp.Interp, c *c17case) (key, detail string, dkey string) {
 			{"'" + n, `"` + n + `"`, "", "symbol"},
 			{"{|" + n + "| " + n + "}(7)", "7", "", "parameter"},
 			{"{|k, " + n + ": 1| " + n + "}(0, " + n + ": 7)", "7", "", "keyword-parameter"},
+			{"{" + n + ": 7}.keys(private?: true)", `["` + n + `"]`, "", "property-listed"},
+			{"[{" + n + ": 7}]@" + n, "[7]", "", "property-in-list-chain"},
+			{"{" + n + ": 7}['" + n + "]", "7", "", "symbol-index"},
+		}
+		if !strings.HasPrefix(n, "_") {
+			progs = append(progs, struct{ src, wantIns, wantOut, what string }{"{" + n + ": 7, _zz: 1}.keys", `["` + n + `"]`, "", "public-property-listed"},
+				struct{ src, wantIns, wantOut, what string }{"[{" + n + ": 7}].map('" + n + ")", "[7]", "", "symbol-as-function"},
+				struct{ src, wantIns, wantOut, what string }{"'" + n + ".sym?", "true", "", "symbol-predicate"})
+		} else {
+			progs = append(progs, struct{ src, wantIns, wantOut, what string }{"{" + n + ": 7, zz: 1}.keys", `["zz"]`, "", "private-property-not-listed"})
 		}
 		_, predefined := ip.Const.Get(object.GetSymHash(n))
 		for _, p := range progs {
